@@ -63,6 +63,20 @@ Proof.
   intros cells. apply G. apply ninv_nil.
 Qed.
 
+(* the neighbour statements with their NoDup hypothesis discharged by reachability: for EVERY grid that a
+   finite history of additions and removals builds from the empty one, the neighbour relation is exactly
+   "present and one step away in one dimension", and it is symmetric *)
+Theorem C13_reachable_neighbors_exact_and_symmetric :
+  forall p ops cells, grun p [] ops = Some cells ->
+    (forall c x, In x (neighbors c cells) <-> In x cells /\ adjacent c (ccoord x)) /\
+    (forall x y, In x cells -> In y cells ->
+       (In y (neighbors (ccoord x) cells) <-> In x (neighbors (ccoord y) cells))).
+Proof.
+  intros p ops cells H. destruct (C13_gridn_counts_exact_for_every_history p ops cells H) as [ND _]. split.
+  - intros c x. exact (C13_neighbors_exact cells c x ND).
+  - intros x y. exact (C13_neighbors_symmetric cells x y ND).
+Qed.
+
 (* ---- GridB: the two priority queues.  lt_ext / lt_int are the cell ordering functors (LessThanExternal /
    LessThanInternal on the cell data); as for any heap they must induce a total preorder. ---- *)
 Section GridBProps.
@@ -156,6 +170,7 @@ Print Assumptions C13_components_partition.
 Print Assumptions C13_gridn_add_exact.
 Print Assumptions C13_gridn_remove_exact.
 Print Assumptions C13_gridn_counts_exact_for_every_history.
+Print Assumptions C13_reachable_neighbors_exact_and_symmetric.
 
 Print Assumptions C13_gridb_invariant_for_every_history.
 Print Assumptions C13_gridb_cell_in_exactly_one_queue.
